@@ -240,19 +240,28 @@ package types
 // pure helpers whose result is not used by any property: nothing is assumed about them except that they touch no module state
 //@ func checkDuplicateProviders
 //@ vars types.checkDuplicateProviders: providers=[]github.com/cosmos/cosmos-sdk/types.AccAddress#0 providerArr=[]string#0 i=int#0 provider=github.com/cosmos/cosmos-sdk/types.AccAddress#0
-//@ trusted
+//@ props C20 C18
+//@ theory coins keys
+//@ loop 0 invariant seen: 0 <= iter && iter <= len(providers) && len(providerArr) == len(providers)
+//@ loop 0 invariant texts_so_far: forall j Int :: 0 <= j && j < iter ==> providerArr[j] == bech32(providers[j])
+//@ ensures [C20,C18] rejects_exactly_a_repeated_provider: (result == NoErr) <==> (forall i Int, j Int :: 0 <= i && i < j && j < len(providers) ==> providers[i] != providers[j])
 
 //@ func ValidateServiceName
 //@ vars types.ValidateServiceName: name=string#0
-//@ trusted
+//@ props C20 C15
+//@ theory coins keys
 
 //@ func ValidateInput
 //@ vars types.ValidateInput: input=string#0
-//@ trusted
+//@ props C20
+//@ theory coins keys
+//@ ensures [C20] accepts_exactly_nonempty_json: (err == NoErr) <==> (strlen(input) > 0 && jsonValid(s2b(input)))
 
 //@ func ValidateServiceFeeCap
 //@ vars types.ValidateServiceFeeCap: serviceFeeCap=github.com/cosmos/cosmos-sdk/types.Coins#0
-//@ trusted
+//@ props C20 C06
+//@ theory coins keys
+//@ ensures [C20,C06] accepts_exactly_valid_coins: (err == NoErr) <==> coinsValid(serviceFeeCap)
 
 // ---------------------------------------------------------------- identifiers (C18); byte-level contracts are in the lemmas of layer K
 //@ func GenerateRequestID
@@ -317,7 +326,7 @@ package types
 //@ vars (types.MsgBindService).ValidateBasic: msg=github.com/irismod/service/types.MsgBindService#0 err=error#0 err=error#1 err=error#2 err=error#3 err=error#4 err=error#5
 //@ props C20 C03
 //@ ensures [C20,C03] deposit_has_no_negative_amount: err == NoErr ==> (forall d Str :: {amt(msg.Deposit, d)} amt(msg.Deposit, d) >= 0)
-//@ ensures [C20,C15] provider_present: err == NoErr ==> len(msg.Provider) > 0
+//@ ensures [C20,C15] provider_and_owner_present: err == NoErr ==> len(msg.Provider) > 0 && len(msg.Owner) > 0
 
 //@ func (MsgUpdateServiceBinding).ValidateBasic
 //@ vars (types.MsgUpdateServiceBinding).ValidateBasic: msg=github.com/irismod/service/types.MsgUpdateServiceBinding#0 err=error#0 err=error#1 err=error#2 err=error#3 err=error#4
@@ -352,19 +361,24 @@ package types
 
 //@ func ValidateOwner
 //@ vars types.ValidateOwner: owner=github.com/cosmos/cosmos-sdk/types.AccAddress#0
-//@ trusted
+//@ props C20 C05
+//@ ensures [C20,C05] accepts_exactly_a_present_owner: (err == NoErr) <==> len(owner) > 0
 
 //@ func ValidateConsumer
 //@ vars types.ValidateConsumer: consumer=github.com/cosmos/cosmos-sdk/types.AccAddress#0
-//@ trusted
+//@ props C20 C05
+//@ ensures [C20,C05] accepts_exactly_a_present_consumer: (err == NoErr) <==> len(consumer) > 0
 
 //@ func ValidateQoS
 //@ vars types.ValidateQoS: qos=uint64#0
-//@ trusted
+//@ props C20
+//@ ensures [C20] accepts_exactly_positive: (err == NoErr) <==> qos > 0
 
 //@ func ValidateOptions
 //@ vars types.ValidateOptions: options=string#0
-//@ trusted
+//@ props C20
+//@ theory coins keys
+//@ ensures [C20] accepts_exactly_json: (err == NoErr) <==> jsonValid(s2b(options))
 
 //@ func ValidateBindingPricing
 //@ vars types.ValidateBindingPricing: pricing=string#0 err=error#0
@@ -372,4 +386,84 @@ package types
 
 //@ func ValidateContextID
 //@ vars types.ValidateContextID: contextID=[]byte#0
-//@ trusted
+//@ props C20 C18
+//@ ensures [C20,C18] accepts_exactly_forty_bytes: (err == NoErr) <==> len(contextID) == 40
+
+//@ func ValidateRequestID
+//@ vars types.ValidateRequestID: reqID=[]byte#0
+//@ props C20 C18
+//@ ensures [C20,C18] accepts_exactly_fifty_eight_bytes: (err == NoErr) <==> len(reqID) == 58
+
+//@ func ValidateAuthor
+//@ vars types.ValidateAuthor: author=github.com/cosmos/cosmos-sdk/types.AccAddress#0
+//@ props C20 C05
+//@ ensures [C20,C05] accepts_exactly_a_present_author: (err == NoErr) <==> len(author) > 0
+
+//@ func ValidateServiceDescription
+//@ vars types.ValidateServiceDescription: svcDescription=string#0
+//@ props C20
+
+//@ func ValidateAuthorDescription
+//@ vars types.ValidateAuthorDescription: authorDescription=string#0
+//@ props C20
+
+//@ func (MsgDisableServiceBinding).ValidateBasic
+//@ vars (types.MsgDisableServiceBinding).ValidateBasic: msg=github.com/irismod/service/types.MsgDisableServiceBinding#0 err=error#0 err=error#1
+//@ props C20 C05
+//@ ensures [C20,C05] provider_and_owner_present: err == NoErr ==> len(msg.Provider) > 0 && len(msg.Owner) > 0
+
+//@ func (MsgRefundServiceDeposit).ValidateBasic
+//@ vars (types.MsgRefundServiceDeposit).ValidateBasic: msg=github.com/irismod/service/types.MsgRefundServiceDeposit#0 err=error#0 err=error#1
+//@ props C20 C05
+//@ ensures [C20,C05] provider_and_owner_present: err == NoErr ==> len(msg.Provider) > 0 && len(msg.Owner) > 0
+
+//@ func (MsgPauseRequestContext).ValidateBasic
+//@ vars (types.MsgPauseRequestContext).ValidateBasic: msg=github.com/irismod/service/types.MsgPauseRequestContext#0 err=error#0
+//@ props C20 C05 C18
+//@ ensures [C20,C05,C18] consumer_present_and_id_forty_bytes: (err == NoErr) <==> (len(msg.Consumer) > 0 && len(msg.RequestContextId) == 40)
+
+//@ func (MsgStartRequestContext).ValidateBasic
+//@ vars (types.MsgStartRequestContext).ValidateBasic: msg=github.com/irismod/service/types.MsgStartRequestContext#0 err=error#0
+//@ props C20 C05 C18
+//@ ensures [C20,C05,C18] consumer_present_and_id_forty_bytes: (err == NoErr) <==> (len(msg.Consumer) > 0 && len(msg.RequestContextId) == 40)
+
+//@ func (MsgKillRequestContext).ValidateBasic
+//@ vars (types.MsgKillRequestContext).ValidateBasic: msg=github.com/irismod/service/types.MsgKillRequestContext#0 err=error#0
+//@ props C20 C05 C18
+//@ ensures [C20,C05,C18] consumer_present_and_id_forty_bytes: (err == NoErr) <==> (len(msg.Consumer) > 0 && len(msg.RequestContextId) == 40)
+
+//@ func (MsgWithdrawEarnedFees).ValidateBasic
+//@ vars (types.MsgWithdrawEarnedFees).ValidateBasic: msg=github.com/irismod/service/types.MsgWithdrawEarnedFees#0
+//@ props C20 C05
+//@ ensures [C20,C05] owner_present: (err == NoErr) <==> len(msg.Owner) > 0
+
+//@ func ValidateOutput
+//@ vars types.ValidateOutput: code=uint16#0 output=string#0
+//@ props C20 C12
+//@ theory coins keys
+//@ ensures [C20,C12] output_present_exactly_with_code_200_and_json: (err == NoErr) <==> ((code == 200 <==> strlen(output) > 0) && (strlen(output) > 0 ==> jsonValid(s2b(output))))
+
+//@ func HasDuplicate
+//@ vars types.HasDuplicate: arr=[]string#0 elementMap=map[string]bool#0 elem=string#0 ok=bool#0
+//@ props C20 C18
+//@ theory coins keys
+//@ loop 0 invariant seen: 0 <= iter && iter <= len(arr)
+//@ loop 0 invariant map_holds_the_elements_seen: forall s Str :: {mapHas_Map_Str_Bool(elementMap, s)} mapHas_Map_Str_Bool(elementMap, s) <==> (exists j Int :: 0 <= j && j < iter && arr[j] == s)
+//@ loop 0 invariant distinct_so_far: forall i Int, j Int :: 0 <= i && i < j && j < iter ==> arr[i] != arr[j]
+//@ ensures [C20,C18] true_exactly_when_two_positions_hold_the_same_element: result <==> (exists i Int, j Int :: 0 <= i && i < j && j < len(arr) && arr[i] == arr[j])
+
+//@ func ValidateTags
+//@ vars types.ValidateTags: tags=[]string#0 i=int#0 tag=string#0
+//@ props C20
+//@ theory coins keys
+//@ loop 0 invariant seen: 0 <= iter && iter <= len(tags)
+
+//@ func (MsgDefineService).ValidateBasic
+//@ vars (types.MsgDefineService).ValidateBasic: msg=github.com/irismod/service/types.MsgDefineService#0 err=error#0 err=error#1 err=error#2 err=error#3 err=error#4 err=error#5
+//@ props C20 C05
+//@ ensures [C20,C05] author_present: err == NoErr ==> len(msg.Author) > 0
+
+//@ func (MsgRespondService).ValidateBasic
+//@ vars (types.MsgRespondService).ValidateBasic: msg=github.com/irismod/service/types.MsgRespondService#0 err=error#0 err=error#1 err=error#2 result=github.com/irismod/service/types.Result#0 err=error#3
+//@ props C20 C05 C18
+//@ ensures [C20,C05,C18] provider_present_and_request_id_58_bytes: err == NoErr ==> len(msg.Provider) > 0 && len(msg.RequestId) == 58
